@@ -167,10 +167,19 @@ instance : Cens EF := ⟨fun f b y c =>
   let yc : EF := match f c with
     | none => y
     | some t => if t.v.isNaN then y else maxv y t
-  let yc' : EF := ⟨yc.v, if yc.e < te then te else yc.e⟩
+  let ye : Float := if yc.e < te then te else yc.e
+  let yc' : EF := ⟨yc.v, ye⟩
   (b yc').map fun r =>
+    -- `backward` may branch on its argument (sign, `y >= EPS`): probe both ends of the argument's error interval
+    let probe (d : Float) : Float := match b ⟨yc.v + d, 0.0⟩ with
+      | some r' => if r'.v.isNaN then 0.0 else (r'.v - r.v).abs + r'.e
+      | none => 0.0
+    let p1 : Float := probe ye
+    let p2 : Float := probe (-ye)
+    let re1 : Float := if r.e < p1 then p1 else r.e
+    let re : Float := if re1 < p2 then p2 else re1
     let m := maxv r c
-    ⟨m.v, if m.e < r.e then r.e else m.e⟩⟩
+    ⟨m.v, if m.e < re then re else m.e⟩⟩
 
 def optF (x : Float) : Option Float := if x.isNaN then none else some x
 def optEF (x : Float) : Option EF := if x.isNaN then none else some (EF.ofF x)
